@@ -101,6 +101,13 @@ func H_C08_bin() {
 						vcover("child")
 					}
 				}
+				if mode == 4 {
+					// run to the end of the container, then ask once more: the extra Next must be a no-op
+					for r.Next() {
+					}
+					vassert(!r.Next(), "Next stays false at the end of a container")
+					vcover("child")
+				}
 				vassert(r.StepOut() == nil, "StepOut succeeds")
 				if top[k].after != 0 {
 					vassert(vObserveState(r) == top[k].after, "after StepOut the Reader shows what a full traversal shows after StepOut")
@@ -186,6 +193,12 @@ func H_C08_text() {
 			vassert(r.StepIn() == nil, "StepIn on a container succeeds")
 			if mode == 3 && r.Next() {
 				vPoke(r)
+				vcover("child")
+			}
+			if mode == 4 {
+				for r.Next() {
+				}
+				vassert(!r.Next(), "Next stays false at the end of a container")
 				vcover("child")
 			}
 			vassert(r.StepOut() == nil, "StepOut succeeds on a valid document")
